@@ -76,7 +76,7 @@ const maxLeaves = 243
 
 // extractTree enumerates the decision tree of fn. domain(key) lists the possible orders of an atom.
 func extractTree(prog *ssa.Program, fn *ssa.Function, mkArgs func() []pred.Val, sums map[string]pred.Summary,
-	fixed func(a, b pred.Val) (int, bool, bool), keyOf func(a, b pred.Val) (string, bool), domain func(key string) []int) ([]leaf, error) {
+	fixed func(a, b pred.Val) (int, bool, bool), keyOf func(a, b pred.Val) (string, bool), domain func(key string) []int, prune ...func(assign map[string]int) bool) ([]leaf, error) {
 	var leaves []leaf
 	var rec func(assign map[string]int) error
 	rec = func(assign map[string]int) error {
@@ -93,6 +93,15 @@ func extractTree(prog *ssa.Program, fn *ssa.Function, mkArgs func() []pred.Val, 
 					a2[k] = x
 				}
 				a2[o.unknown] = v
+				skip := false
+				for _, pr := range prune {
+					if !pr(a2) {
+						skip = true
+					}
+				}
+				if skip {
+					continue
+				}
 				if err := rec(a2); err != nil {
 					return err
 				}
